@@ -17,6 +17,14 @@ from sqlparse import keywords as _K
 # ------------------------------------------------------------------------------------------------------------
 # lexemes and marks
 
+def weighted(*pairs):
+    """weighted choice between strategies.  st.one_of cannot express weights: it flattens nested one_of / mapped
+    one_of strategies into their leaves and drops repeated strategy objects, so every leaf is equally likely."""
+    table = [i for i, (w, _) in enumerate(pairs) for _ in range(w)]
+    strategies = [s for _, s in pairs]
+    return st.sampled_from(table).flatmap(lambda i: strategies[i])
+
+
 def L(kind, text, tight=False, **meta):
     return [kind, text, bool(tight), meta]
 
